@@ -198,7 +198,7 @@ func (x *xpoaConsensus) CheckMinerMatch(ctx xcontext.XContext, block cctx.BlockI
 	conStoreBytes, _ := block.GetConsensusStorage()
 	// 验证矿工身份
 	proposer := x.election.GetLocalLeader(block.GetTimestamp(), block.GetHeight(), conStoreBytes)
-	if proposer != string(block.GetProposer()) {
+	if proposer == "" || proposer != string(block.GetProposer()) {
 		ctx.GetLog().Warn("Xpoa::CheckMinerMatch::calculate proposer error", "logid", ctx.GetLog().GetLogId(), "want", proposer,
 			"have", string(block.GetProposer()), "blockId", utils.F(block.GetBlockid()))
 		return false, MinerSelectErr
